@@ -146,6 +146,11 @@ def run_case(case):
         else:  # fixphase
             N = case["N"]
             skip = case.get("skip") or []
+            f_n, r_n = vsgapi.build(lines, a, oConfig)
+            ent = EnterSink()
+            monitors.Instrument(f_n, r_n, [ent])
+            r_n.fix(N, list(skip))
+            t_n = monitors.snap(f_n)
             # full run with event stream
             eff = effects.EffectSink()
             monitors.Instrument(f_ap, r_ap, [eff])
@@ -161,11 +166,6 @@ def run_case(case):
                 if ev["kind"] == "nonrule" and N < 1:
                     break
                 t_at_N = ev["after"]
-            f_n, r_n = vsgapi.build(lines, a, oConfig)
-            ent = EnterSink()
-            monitors.Instrument(f_n, r_n, [ent])
-            r_n.fix(N, list(skip))
-            t_n = monitors.snap(f_n)
             late = [x for x in ent.fix_entered + ent.analyze_entered if x[1] > N]
             skipped_run = [x for x in ent.fix_entered + ent.analyze_entered if x[1] in skip]
             out.update({"N": N, "skip": skip, "fix_entered": len(ent.fix_entered), "full_run_changed": eff.initial != eff.last, "changed_up_to_N": t_at_N != eff.initial})
